@@ -3,6 +3,7 @@ package rules
 import (
 	"fmt"
 	"go/token"
+	"strings"
 
 	"golang.org/x/tools/go/ssa"
 
@@ -21,7 +22,8 @@ func checkC19(c *Ctx) {
 	c.checkSearchScope()
 	c.checkRewriteOnlyIndexed()
 	c.checkTagDeltaOrder()
-	c.checkOwnerOnlyOps()
+	// of the owner-only operations (C06.5) only those on tags belong to this property
+	c.R.Scoped(func(rule, construct string) bool { return strings.Contains(construct, "Tags") }, c.checkOwnerOnlyOps)
 }
 
 func (c *Ctx) checkTagWrites() {
